@@ -3,7 +3,7 @@
    thresholds with absolute tolerances in vendored code are known findings, see DESIGN.md. *)
 From Coq Require Import Reals List Permutation.
 Require Import Cox.Num.Ops Cox.Geo.Vec Cox.Model.Mesh Cox.Thm.MeshThm Cox.Thm.ScalingThm Cox.Thm.RigidThm
-  Cox.Model.Inside Cox.Thm.InsideThm Cox.Model.FormFactor Cox.Thm.FormFactorThm.
+  Cox.Model.Inside Cox.Thm.InsideThm Cox.Model.FormFactor Cox.Thm.FormFactorThm Cox.Thm.Rigid2.
 Local Open Scope R_scope.
 
 (* scaling: volumes by s^3, centroids by s, inertia tensors by s^5 *)
@@ -57,3 +57,12 @@ Theorem C09_form_factor_phase :
   forall (n q t : vec3 R) (V : list (vec3 R)),
     polygon_ff n q (map (fun v => vadd Rops v t) V) = cmul (cexp_i (- vdot Rops q t)) (polygon_ff n q V).
 Proof. exact ff_translation. Qed.
+
+(* second moments transform as tensors under EVERY linear map, P(M x) = det M * M P(x) M^T, and the inertia tensor about the
+   origin rotates with the shape under every orthogonal map: I(M x) = det M * M I(x) M^T (rotations: M I M^T) *)
+Theorem C09_inertia_tensor_rotates :
+  forall M i j TT, (i < 3)%nat -> (j < 3)%nat ->
+    cone2 Rops i j (map (tmap M) TT) = mdet M * congr M i j (fun k l => cone2 Rops k l TT)
+    /\ (orthogonal M -> spec_inertia Rops i j (map (tmap M) TT) = mdet M * congr M i j (fun k l => spec_inertia Rops k l TT)).
+Proof. intros M i j TT Hi Hj. split; [apply cone2_linear | apply inertia_orthogonal]; assumption. Qed.
+Print Assumptions C09_inertia_tensor_rotates.
